@@ -13,7 +13,7 @@ pub fn prop() -> Prop {
     id: "C02",
     rule: "case = the C01 pipeline generator (depth <= 4, whole catalogue incl. every scheduler-using operator, interval/timer sources, local and thread-safe builds, all three scheduler models) + a script of <= 12 steps into which `unsubscribe()` (or the drop of an `unsubscribe_when_dropped()` guard) is injected at a generated position; after the cut the script continues: hot inputs emit and terminate, the clock advances, tasks run (any-order model: in generated order), and finally every pending timer is fired and every ready task run. Part `every-cut` (thorough) tries every position of each generated script. \
            Oracle: no notification is delivered during a script step later than the cut. Non-trivial: at the cut a scheduled task or timer was pending, or a hot input emitted after the cut. Distinct by hash(case). \
-           Part `threads` (engine T): thread A emits into SubjectThreads inputs of one of merge / zip / combine_latest / merge_all / take_until / share / observe_on / delay (_threads forms) or a bare SubjectThreads; thread B unsubscribes the probe's subscription and raises a flag the moment unsubscribe() has returned; for scheduler pipelines a third thread runs queued tasks / advances the clock; schedule = <= 3 preemptions at lock-acquisition granularity; afterwards every queued task is run and every timer fired. Oracle: no probe callback is *entered* with the flag raised.",
+           Part `threads` (engine T): thread A emits into SubjectThreads inputs of one of merge / zip / combine_latest / merge_all / take_until / share / observe_on / delay (_threads forms), debounce, throttle_time (trailing edge), buffer_with_time, or a bare SubjectThreads; thread B unsubscribes the probe's subscription and raises a flag the moment unsubscribe() has returned; for scheduler pipelines a third thread runs queued tasks / advances the clock; schedule = <= 3 preemptions at lock-acquisition granularity; afterwards every queued task is run and every timer fired. Oracle: no probe callback is *entered* with the flag raised.",
     assumptions: &[
       "a notification delivered *during* the unsubscribe() call is not counted (the statement speaks of after it returns)",
       "threads part: sequentially consistent interleavings at lock-acquisition granularity",
@@ -154,8 +154,8 @@ fn run_threads(c: &mut dyn Choices, ctx: &Ctx) -> Outcome {
   use rxrust::prelude::*;
   use std::sync::atomic::{AtomicBool, Ordering};
   use std::sync::Arc;
-  let pipe = c.pick(9);
-  let sched_pipe = pipe >= 7;
+  let pipe = c.pick(PIPES.len());
+  let sched_pipe = uses_scheduler(pipe);
   let a_ops: Vec<(usize, u8)> = (0..(1 + c.pick(4))).map(|_| (if pipe == 0 || pipe >= 6 { 0 } else { c.pick(2) }, c.pick(8) as u8)).collect();
   let b_pre: usize = c.pick(3);
   let w_ops: Vec<bool> = if sched_pipe { (0..(1 + c.pick(4))).map(|_| c.pick(3) == 0).collect() } else { vec![] };
@@ -169,7 +169,7 @@ fn run_threads(c: &mut dyn Choices, ctx: &Ctx) -> Outcome {
   let w = World::new();
   let cut = Arc::new(AtomicBool::new(false));
   let after = Arc::new(AtomicBool::new(false));
-  let probe = TProbe { id: 0, log: w.log.clone(), cut: Some(cut.clone()), after_cut: Some(after.clone()), clock: None, deliveries: None };
+  let probe = TProbe { id: 0, log: w.log.clone(), cut: Some(cut.clone()), after_cut: Some(after.clone()), clock: None, deliveries: None, nest: None };
   let sub = Arc::new(std::sync::Mutex::new(Some(w.pipe(pipe).actual_subscribe(probe))));
   let mut bodies: Vec<Box<dyn FnOnce() + Send>> = vec![];
   {
@@ -237,7 +237,7 @@ fn run_threads(c: &mut dyn Choices, ctx: &Ctx) -> Outcome {
     let mut h = w.hot[0].clone();
     h.next(999);
   }
-  let name = PIPES[pipe % 9];
+  let name = PIPES[pipe % PIPES.len()];
   let verdict = match &stats.verdict {
     TV::Completed => {
       if after.load(Ordering::SeqCst) {
